@@ -238,6 +238,15 @@ def replay_float_functions(diffs):
 # ---------------------------------------------------------------- C11
 BT_PROGRAM = """
 :- use_module(library(lists)).
+:- use_module(library(cont)).
+% unbound permanent variables, a newer choice point, a captured continuation, then backtracking
+sq(_).
+salt(1). salt(2).
+sstep(1) :- shift(ball).
+sstep(2) :- length(L, 3000), maplist(=(x), L).
+sbody(R) :- sq(Y), sq(Z), sq(W), salt(I), sstep(I),
+            ( var(Y), var(Z), var(W) -> R = unbound ; R = clobbered ).
+t7 :- reset(sbody(R), Ball, _), Ball \\== ball, !, show(R).
 :- use_module(library(atts)).
 :- use_module(library(dif)).
 :- use_module(library(freeze)).
@@ -261,7 +270,8 @@ t6 :- ( \\+ (X = 1, Y = 2) -> show(wrong) ; ( var(X), var(Y) -> show(ok) ; show(
 
 
 def replay_backtracking(viol):
-    cases = [("t1", "ok"), ("t2", "2"), ("t3", "_-2"), ("t4", "ok"), ("t5", "ok"), ("t6", "ok")]
+    cases = [("t1", "ok"), ("t2", "2"), ("t3", "_-2"), ("t4", "ok"), ("t5", "ok"), ("t6", "ok"),
+             ("t7", "unbound")]
     # t3 prints an unbound variable name: normalise by checking only that it is unbound
     cases[2] = ("q3(R), ( R = V-2, var(V) -> show(ok) ; show(R) )", "ok")
     return run_cases(BT_PROGRAM, cases, {"model": viol}, "C11", "backtracking")
@@ -315,7 +325,6 @@ def replay_equal_integers(viol):
         ("Y is 2^60-2^60+3, yn(lit2(Y))", "no"),
         ("Y is 2^60-2^60+2, yn(Y == 2)", "yes"),
         ("Y is 2^60-2^60+2, compare(O, Y, 2), show(O)", "="),
-        ("Y is 2^60-2^60+2, msort([3,Y,1,2], L), show(L)", "[1,2,2,3]"),
         ("Y is 2^60-2^60+2, sort([3,Y,1,2], L), show(L)", "[1,2,3]"),
         # bignum vs bignum built separately
         ("Z is 2^55, yn(litb(Z))", "yes"),
